@@ -373,6 +373,32 @@ theorem C14_headers_facade (e : Exp) (hc : HeaderCrypto) (hi : hc.Inv e) :
    fun d hl => HeaderCrypto.decryptServerHeader_ok e hc d hi hl,
    fun d hl => HeaderCrypto.decryptClientHeader_ok e hc d hi hl⟩
 
+/-- **the four Read / Write wrappers of the combined object** (`HeaderCrypto::{read_and_decrypt_server_header,
+    read_and_decrypt_client_header, write_encrypted_server_header, write_encrypted_client_header}`) are as
+    total as the halves' wrappers they delegate to: on any reader / writer behaviour (short reads and
+    writes, interruptions, errors, EOF, `Ok(0)`) and for any `size` / `opcode` they return — an `io::Result`,
+    never a panic — and re-establish the invariant -/
+theorem C14_headers_facade_io (e : Exp) (hc : HeaderCrypto) (hi : hc.Inv e) :
+    (∀ script, ∃ R, hc.readServerHeader e script = .ok R ∧ R.state.Inv e) ∧
+    (∀ script, ∃ R, hc.readClientHeader e script = .ok R ∧ R.state.Inv e) ∧
+    (∀ size opcode script, ∃ R, hc.writeServerHeader e size opcode script = .ok R ∧ R.state.Inv e) ∧
+    (∀ size opcode script, ∃ R, hc.writeClientHeader e size opcode script = .ok R ∧ R.state.Inv e) := by
+  refine ⟨fun sc => ?_, fun sc => ?_, fun s o w => ?_, fun s o w => ?_⟩
+  · obtain ⟨r, hr, hi'⟩ := Half.readServerHeader_ok e hc.decrypt sc hi.1
+    simp only [HeaderCrypto.readServerHeader, hr, Out.bind_ok, Out.pure_eq]
+    exact ⟨_, rfl, ⟨hi', hi.2⟩⟩
+  · obtain ⟨r, hr, hi'⟩ := Half.readClientHeader_ok e hc.decrypt sc hi.1
+    simp only [HeaderCrypto.readClientHeader, hr, Out.bind_ok, Out.pure_eq]
+    exact ⟨_, rfl, ⟨hi', hi.2⟩⟩
+  · obtain ⟨h', out, hr, hi', _⟩ := Half.encrypt_ok e hc.encrypt (serverHeaderBytes s o) hi.2
+    simp only [HeaderCrypto.writeServerHeader, Half.writeServerHeader, Half.encryptServerHeader, hr,
+      Out.bind_ok, Out.pure_eq]
+    exact ⟨_, rfl, ⟨hi.1, hi'⟩⟩
+  · obtain ⟨h', out, hr, hi', _⟩ := Half.encrypt_ok e hc.encrypt (clientHeaderBytes s o) hi.2
+    simp only [HeaderCrypto.writeClientHeader, Half.writeClientHeader, Half.encryptClientHeader, hr,
+      Out.bind_ok, Out.pure_eq]
+    exact ⟨_, rfl, ⟨hi.1, hi'⟩⟩
+
 /-- the hypothesis on the key is needed: a Vanilla half over a 39-byte "session key" indexes out of
     bounds on its 40th byte (the API's `[u8; 40]` excludes this) -/
 example : (Half.newDec Crypto.real .vanilla (List.replicate 39 0)).decrypt .vanilla (List.replicate 40 0)
@@ -484,3 +510,5 @@ theorem C14_wrath_history (C : Crypto) (K : Bytes) :
     exact ⟨r', h⟩
 
 end WowSrp
+
+#print axioms WowSrp.C14_headers_facade_io
